@@ -77,6 +77,9 @@ type c14Session struct {
 	issig     bool
 }
 
+// c14Retry: build sessions whose builders went through an abandoned first attempt.
+var c14Retry bool
+
 func c14Build(slots []c14Slot, part map[string]bool, issig bool) (*c14Session, error) {
 	s := &c14Session{slots: slots, part: part, userSec: vfTag("c14-user"), kssSec: vfTag("c14-kss"), keys: map[string]*gabikeys.PublicKey{}, issig: issig}
 	for i, sl := range slots {
@@ -116,6 +119,17 @@ func c14Build(slots []c14Slot, part map[string]bool, issig bool) (*c14Session, e
 	s.rand, err = NewProofRandomizers()
 	if err != nil {
 		return nil, err
+	}
+	if c14Retry {
+		// a first attempt that got no further than the user's commitment request (message lost): the
+		// user starts over on the same builders with fresh randomisers
+		r0, err := NewProofRandomizers()
+		if err != nil {
+			return nil, err
+		}
+		if _, _, err := KeyshareUserCommitmentRequest(s.builders, r0, s.keys); err != nil {
+			return nil, fmt.Errorf("KeyshareUserCommitmentRequest (abandoned attempt): %w", err)
+		}
 	}
 	s.commReq, s.hashInput, err = KeyshareUserCommitmentRequest(s.builders, s.rand, s.keys)
 	if err != nil {
@@ -167,7 +181,7 @@ func c14KeyTuples(n int, keys []string) [][]string {
 func TestVerifC14Honest(t *testing.T) {
 	r := vkit.Start(t, "C14", "honest-exchange", 240*time.Second, 1500*time.Second)
 	defer r.Finish()
-	r.Rule = "builder lists of length 1..L over {disclosure, issuance} + fixed lists with non-revocation / range / random-blind members x every key tuple over {k1024a,k1024b,k2048} x every non-empty subset of the used keys participating x {disclosure, signature session (lists without issuance)}; non-trivial = distinct scenario; oracle: no error, ProofP.C == user's challenge, the merged list verifies with labels (participating members 'kss', others ''), for total secret = user + server share"
+	r.Rule = "builder lists of length 1..L over {disclosure, issuance} + fixed lists with non-revocation / range / random-blind members x every key tuple over {k1024a,k1024b,k2048} x every non-empty subset of the used keys participating x {disclosure, signature session (lists without issuance)}; every third scenario as a second attempt on builders that already went through an abandoned commitment request; non-trivial = distinct scenario; oracle: no error, ProofP.C == user's challenge, the merged list verifies with labels (participating members 'kss', others ''), for total secret = user + server share"
 	vfInstallEnv(t, "C14/honest", r.Seed)
 	L := vkit.Pick(3, 4)
 	keys := []string{"k1024a", "k1024b", "k2048"}
@@ -233,14 +247,21 @@ func TestVerifC14Honest(t *testing.T) {
 				if r.Expired() {
 					return
 				}
+				// every third scenario is run as a retry after an abandoned first attempt on the same builders
+				c14Retry = r.Evaluations%3 == 2
+				retried := c14Retry
 				r.Eval()
 				s, err := c14Build(sl, part, issig)
+				c14Retry = false
 				if err != nil {
 					// a 1024-bit key with an oversized secret is the one documented refusal; our secrets are 120 bits
 					r.Violate("C14|honest-exchange-failed|user-side", fmt.Sprintf("%v part=%v: %v", sl, part, err), fmt.Sprint(sl, part))
 					continue
 				}
 				name := s.name()
+				if retried {
+					name += " (second attempt on the same builders)"
+				}
 				r.Nontrivial(name)
 				var proofP *ProofP
 				pan, msg := vkit.Guard(func() { proofP, err = KeyshareResponse(s.kssSec, s.kssRand, s.commReq, s.respReq, s.keys) })
